@@ -435,6 +435,7 @@ class Block:
         self.inserts = []
         self.rewrites = []
         self.sigrewrites = []
+        self.specrewrites = []
         self.head = []
         self.tail = []
 
@@ -526,12 +527,12 @@ def parse_template(tpl_text, base_dir=None, hashes=None):
             payload = []
             cur.inserts.append((word, anchor, int(a.get("nth", 1)), payload))
             target = payload
-        elif word in ("rewrite", "sigrewrite"):
+        elif word in ("rewrite", "sigrewrite", "specrewrite"):
             m = re.match(r'(\S+)\s+"((?:[^"\\]|\\.)*)"\s*=>\s*"((?:[^"\\]|\\.)*)"\s*$', rest)
             if not m:
                 raise TemplateError("line %d: bad rewrite" % ln)
             unq = lambda x: x.replace('\\"', '"')
-            (cur.rewrites if word == "rewrite" else cur.sigrewrites).append((m.group(1), unq(m.group(2)), unq(m.group(3))))
+            {"rewrite": cur.rewrites, "sigrewrite": cur.sigrewrites, "specrewrite": cur.specrewrites}[word].append((m.group(1), unq(m.group(2)), unq(m.group(3))))
             target = None
         else:
             raise TemplateError("line %d: unknown directive %r" % (ln, word))
@@ -571,10 +572,26 @@ def weave_fn(it, blk, counts, rewrite_log):
         end = p + w.start() if w else len(sig)
         rty = sig[p + 2:end].strip()
         sig = sig[:p] + "-> (%s: %s)" % (blk.ret, rty) + ((" " + sig[end:]) if w else "")
+    spec_copy = None
+    if blk.attrs.get("also_spec"):
+        # the same body text, emitted a second time as a spec function (so that callers can see through the exec fn)
+        ms0 = mask(sig)
+        po0 = ms0.find("(")
+        pc0 = match_close(ms0, po0)
+        ar = ms0.find("->", pc0)
+        rty0 = sig[ar + 2:].strip() if ar >= 0 else "()"
+        mret = re.match(r"^\(\s*\w+\s*:\s*(.*)\)$", rty0, re.S)
+        if mret:
+            rty0 = mret.group(1).strip()
+        params0 = re.sub(r"\bmut\s+(?=\w+\s*:)", "", sig[po0:pc0 + 1])
+        sbody = apply_rewrites(body, blk.specrewrites, counts, rewrite_log)
+        spec_copy = "spec fn %s%s -> %s\n%s\n" % (blk.attrs["also_spec"], params0, rty0, sbody)
     body = apply_loops(body, blk.loops)
     body = apply_anchor_inserts(body, blk.inserts)
     spec = "".join("    " + l + "\n" for l in blk.spec)
     woven = sig + "\n" + spec + body if blk.spec else sig + " " + body
+    if spec_copy:
+        woven = spec_copy + woven
     canary = None
     reqs = _requires_only(blk.spec)
     if reqs and blk.attrs.get("canary") != "skip" and "&mut" not in sig and "async" not in sig:
